@@ -352,6 +352,18 @@ func (h *simHalf) setStalled(on bool) {
 	h.mu.Unlock()
 }
 
+// setBroken makes writes INTO half h fail (EPIPE) while the other direction stays as it is: a
+// peer that has shut down its receiving side.
+func (h *simHalf) setBroken() {
+	h.mu.Lock()
+	if !h.eof {
+		h.eof = true
+		h.stats.fire("half_close")
+	}
+	h.mu.Unlock()
+	h.signal()
+}
+
 func (h *simHalf) setBlackhole(on bool) {
 	h.mu.Lock()
 	if on && !h.blackhole {
